@@ -741,6 +741,10 @@ def classify0(ix, sets, miss):
         if inf['kind'] == 'elseif':
             return f'raw:elseif-arm:{role}'
         sibs = inf['sibs']
+        if lk == 'assoc':
+            # the read is the evaluation of a selector (expression / subscript) on entry of the ASSOCIATE construct:
+            # FindReads only registers reads of leaf nodes and conditions, never of an Associate's selectors
+            return f'raw:associate-selector-read-not-recorded:{role}'
         # read_after_write_vars compares symbols by name: a write through an ASSOCIATE name and a read of the
         # selector variable (or the other way round) never meet
         w_in_assoc = any(var in sets[s['id'] - 1]['d'] for sb in sibs[:inf['pos']] for a in flat([sb]) if a['s'] == 'assoc' for s in flat(a['body']))
